@@ -488,6 +488,15 @@ def make_dataset(ex, name, env, owner="caller", **kw):
     ds.fields["vars"].ghost["entry_factory"] = _da_factory(owner)
     ds.fields["dims"] = SymDict(name + ".dims", closed=False, owner=owner)
     ds.ghost["owner"] = owner
+    # variables with a declared type: present, holding a symbolic array owned like the dataset
+    from .typespec import make_value
+    for vname, vspec in (kw.get("vars") or {}).items():
+        data = make_value(ex, vspec, f"{name}.{vname}", env)
+        if isinstance(data, Arr):
+            data.ghost.setdefault("owner", owner)
+        da = make_dataarray(ex, f"{name}.{vname}", data=data)
+        da.fields["attrs"] = SymDict(f"{name}.{vname}.attrs", closed=False, owner=owner)
+        ds.fields["vars"].entries[vname] = [True, da]
     return ds
 
 
@@ -560,3 +569,30 @@ def symdict_items(ex, obj, args, kwargs, node, env, fr):
     if obj.closed and all(p is True for p, _ in obj.entries.values()):
         return [(k, v) for k, (p, v) in obj.entries.items()]
     raise Unsupported("items() of a symbolic mapping")
+
+
+# ---------------------------------------------------------------------------------------------
+# full BallTree / KDTree record for verifying the `coordinates` setter (C08 / C11)
+# ---------------------------------------------------------------------------------------------
+def _make_full_tree(cls):
+    def mk(ex, name, env, **kw):
+        o = Obj(cls)
+        g = Obj("Grid")
+        for d in ("n_node", "n_face", "n_edge"):
+            g.fields[d] = z3.Int(fresh_name(d))
+            ex.assume(g.fields[d] >= 1)
+        o.fields["_source_grid"] = g
+        o.fields["_coordinates"] = Opaque(name=name + "._coordinates")
+        o.fields["coordinate_system"] = Opaque(name=name + ".coordinate_system")
+        o.fields["distance_metric"] = Opaque(name=name + ".distance_metric")
+        o.fields["reconstruct"] = z3.Bool(fresh_name("reconstruct"))
+        o.fields["_n_elements"] = z3.Int(fresh_name("_n_elements"))
+        for k in ("nodes", "face_centers", "edge_centers"):
+            o.fields["_tree_from_" + k] = opt_opaque(f"{name}._tree_from_{k}")
+        return o
+    return mk
+
+
+FACTORIES_TREES = {}
+for _cls in ("BallTree", "KDTree"):
+    factory(_cls)(_make_full_tree(_cls))
